@@ -24,9 +24,9 @@ type Case struct {
 
 // Violation is a property-oracle hit on the implementation itself.
 type Violation struct {
-	What   string `json:"what"`   // stable identifier used by KNOWN_FINDINGS matching
-	Detail string `json:"detail"` // human-readable
-	Replay V      `json:"-"`
+	What    string `json:"what"`   // stable identifier used by KNOWN_FINDINGS matching
+	Detail  string `json:"detail"` // human-readable
+	Replay  V      `json:"-"`
 	ReplayS string `json:"replay"`
 }
 
